@@ -693,6 +693,9 @@ class AffineTransform:
         if type(params) == type(()):
             A, b = params
             params = from_matvec(A, b)
+            if params.dtype == np.object_:
+                # from_matvec stores a float 1.0 in the corner: keep exact matrices exact
+                params[-1, -1] = 1
         ndim = (len(innames) + 1, len(outnames) + 1)
         if params.shape != ndim[::-1]:
             raise ValueError('shape and number of axis names do not agree')
@@ -1747,7 +1750,8 @@ def _product_affines(*affine_mappings, **kwargs):
 
     M = np.zeros((np.sum(ndimout)+1, np.sum(ndimin)+1),
                  dtype=safe_dtype(*[affine.affine.dtype for affine in affine_mappings]))
-    M[-1,-1] = 1.
+    # integer one: a float here would turn exact (object dtype) matrices inexact
+    M[-1,-1] = 1
 
     # Fill in the block matrix
     product_domain = []
